@@ -103,16 +103,16 @@ func RedactMongoLog(jsonStr string) (*orderedmap.OrderedMap[string, any], error)
 				attr.Set("cmd", cmdMap)
 			}
 		}
-		command, ok := attr.Get("command")
-		if !ok {
-			return entry, nil
-		}
-		if cmdMap, ok := command.(*orderedmap.OrderedMap[string, any]); ok {
-			redactCommand(cmdMap, shouldEagerRedact)
-			if redactNamespaces {
-				redactNamespace(cmdMap)
+		// a line may carry only an error-report copy or an originating command: the rest of
+		// the line (plan summary, attr.ns) is still processed when "command" is absent
+		if command, ok := attr.Get("command"); ok {
+			if cmdMap, ok := command.(*orderedmap.OrderedMap[string, any]); ok {
+				redactCommand(cmdMap, shouldEagerRedact)
+				if redactNamespaces {
+					redactNamespace(cmdMap)
+				}
+				attr.Set("command", cmdMap)
 			}
-			attr.Set("command", cmdMap)
 		}
 		if shouldEagerRedact {
 			planSummary, psOk := attr.Get("planSummary")
